@@ -28,7 +28,7 @@ ASSUMPTIONS = [
     'a run that fails with a documented, input-dependent error of a step (e.g. concatenate "empty row") is a rejection, '
     'not a violation; the residual rejection rate is reported',
 ]
-BUDGET = {'quick': dict(examples=1200, shards=8, seconds=80),
+BUDGET = {'quick': dict(examples=2400, shards=16, seconds=80),
           'thorough': dict(examples=100000, shards=16, seconds=1200)}
 
 TYPES = ['string', 'integer', 'number', 'boolean', 'date', 'datetime', 'time', 'year', 'array', 'object']
